@@ -68,7 +68,7 @@ Fixpoint dec_rows (counts : list Z) (data : list Z) (rs : Z) : res (list Z) :=
   end.
 
 Definition decode_rle (data : list Z) (w h depth version : Z) : res (list Z) :=
-  let rs := Z.max (row_size w depth) 1 in
+  let rs := row_size w depth in
   let k := cw version in
   let n := (Z.to_nat h * k)%nat in
   let raw := firstn n data in
@@ -145,10 +145,10 @@ Fixpoint zip4 (p0 p1 p2 p3 : list Z) : list Z :=
 Definition restore_row (w : nat) (l : list Z) : list Z :=
   zip4 (firstn w l) (firstn w (skipn w l)) (firstn w (skipn (2 * w) l)) (firstn w (skipn (3 * w) l)).
 
-(* _shuffle_byte_order / _restore_byte_order: range(.., .., 0) raises ValueError when w = 0 (whatever h);
-   the index generator runs over [0, 4wh), so a shorter array raises IndexError, a longer keeps its tail *)
+(* _shuffle_byte_order / _restore_byte_order: the index generator yields nothing when w = 0 (copy of the
+   array); otherwise it runs over [0, 4wh), so a shorter array raises IndexError, a longer keeps its tail *)
 Definition shuffle_arr (f : list Z -> list Z) (arr : list Z) (w h : Z) : res (list Z) :=
-  if w =? 0 then Err ValueErr
+  if w =? 0 then Ok arr
   else if len arr <? 4 * w * h then Err IndexErr
   else Ok (map_rows f (Z.to_nat h) (Z.to_nat (4 * w)) arr).
 
